@@ -232,11 +232,23 @@ def sheet(draw, knobs=None, max_rules=7):
                 decls.insert(draw(st.integers(0, len(decls))), draw(st.sampled_from(COMMENTS)))
             txt = "".join(f"\n  {d}" + ("" if d.startswith("/*") else ";") for d in decls)
             roots.append(f"{seln} {{{txt}\n}}")
+    # theme variants: compound :root / html selectors re-defining the same properties AFTER the plain block. They apply only
+    # when the class / attribute is present, so for the plain document the plain :root / html values hold.
+    variants = []
+    if var_defs and draw(st.integers(0, 3)) == 0:
+        vsel = draw(st.sampled_from([':root[data-theme="dark"]', ":root.dark", "html.sepia", "html[data-theme=dark]", ":root:not(.light)", "html#app"]))
+        names = draw(st.lists(st.sampled_from([n for n, _ in var_defs]), min_size=1, max_size=3, unique=True))
+        body = "".join(f"\n  {n}: {draw(colour_value())};" for n in names)
+        variants.append(f"{vsel} {{{body}\n}}")
     # place root rules: before everything (usual) or somewhere else
     items = list(body_items)
     for r in roots:
         pos = 0 if draw(st.integers(0, 3)) else draw(st.integers(0, len(items)))
         items.insert(pos, r)
+    for v in variants:
+        # after the last plain root block (so a tool that wrongly treats it as a variable scope lets it win)
+        last = max([i for i, it in enumerate(items) if it in roots], default=-1)
+        items.insert(draw(st.integers(last + 1, len(items))), v)
     if kb["carry"]:
         head = []
         if draw(st.integers(0, 3)) == 0:
@@ -262,4 +274,7 @@ def cli_settings(draw):
     else:
         c = draw(gc.rgb())
         s["default_bg"] = f"#{c[0]:02x}{c[1]:02x}{c[2]:02x}"
+    if draw(st.integers(0, 11)) == 0:
+        # the option is resolved like a declaration value, so it may reference a custom property of the file
+        s["default_bg"] = draw(st.sampled_from(["var(--bg, #ffffff)", "var(--bg, #101010)", "var(--xb, #fafafa)", "var(--page-bg, white)", "var(--text, #fff)"]))
     return s
